@@ -92,6 +92,11 @@ def check_state(y, m, d, n, w, doy, prev_year=None):
         r = Epoch.doy2date(y, doy + 0.75)
         if (r[0], r[1]) != (y, m) or abs(r[2] - (d + 0.75)) > 1e-9:
             out.append(("doy2date", "doy2date(%d,%r) = %r, model %r" % (y, doy + 0.75, r, (y, m, d + 0.75))))
+        # the last instants of the day: 5e-11 day and one ulp before the next whole day number
+        for x in (doy + 1 - 5e-11, math.nextafter(float(doy + 1), 0.0)):
+            r = Epoch.doy2date(y, x)
+            if (r[0], r[1]) != (y, m) or not (d + 0.999 < r[2] <= d + 1.0):
+                out.append(("doy2date", "doy2date(%d,%r) = %r, model %r" % (y, x, r, (y, m, d + (x - doy)))))
         g = Epoch.get_doy(y, m, d + 0.75)
         if abs(g - (doy + 0.75)) > 1e-9:
             out.append(("get_doy", "get_doy(%d,%d,%r) = %r, model %r" % (y, m, d + 0.75, g, doy + 0.75)))
@@ -258,6 +263,14 @@ def check_sidereal(j):
             continue
         exact_dt = Fraction(j2) - Fraction(j)
         dev = float(cdist1(Fraction(th2) - Fraction(th), Fraction(RATE) * exact_dt))
+        # within one UT day the advance is the stated rate times the elapsed time and nothing else: judged to 2e-11
+        # day on the instants the two objects actually hold (the constructor may hand back the neighbouring double)
+        jh, jh2 = e.jde(), Epoch(j2).jde()
+        if math.floor(jh - 0.5) == math.floor(jh2 - 0.5):
+            dev2 = float(cdist1(Fraction(th2) - Fraction(th), Fraction(RATE) * (Fraction(jh2) - Fraction(jh))))
+            if dev2 > 2e-11:
+                out.append(("advance_within_day", "theta(%r)-theta(%r), both in one UT day, deviates %.3g from %r turns/day"
+                            % (j2, j, dev2, RATE), dev2))
         if dev > 1e-8:
             out.append(("advance", "theta(%r)-theta(%r) deviates %.3g from %r turns/day"
                         % (j2, j, dev, RATE), dev))
